@@ -357,11 +357,11 @@ def translate():
 # mouette/utils/maths.py: principal_angle, angle_diff, roots -> lean/Mouette/Generated/C12Maths.lean
 # ------------------------------------------------------------------------------------------------------------------
 MATHS_FILE = "mouette/utils/maths.py"
-MATHS_HEADER = ("set_option linter.unusedVariables false\nnamespace Mouette.Generated.C12Maths\n\n"
+MATHS_HEADER = ("import Mouette.Model.FloatOps\nset_option linter.unusedVariables false\nnamespace Mouette.Generated.C12Maths\nopen Mouette\n\n"
                 "/-! The bodies of the angle utilities of `mouette/utils/maths.py`, over ANY number type `α` with the operations\n"
-                "they use.  `pi` (the float constant `math.pi`) and `fmod` (the float operator `%`) are PARAMETERS: the bridges of\n"
-                "`Props/C12M.lean` instantiate them with `Real.pi` and `x − m⌊x/m⌋` (what `%` computes for a positive modulus in\n"
-                "exact arithmetic), resp. with 1/2 turn over ℚ.  Rounding of `%`, of `2*pi` and of the constant are not modelled. -/\n\n")
+                "they use.  `math.pi` and the float operator `%` are the fields `F.pi`, `F.fmod` of the parameter `F : FloatOps α`\n"
+                "(`Model/FloatOps.lean`): the theorems of `Props/C12M.lean` take `F.Exact` (π, `x − m⌊x/m⌋`, cos, sin) as their one\n"
+                "hypothesis about floats, resp. instantiate `F` with 1/2 turn over ℚ.  Rounding is not modelled. -/\n\n")
 ALPHA = "{α : Type} [Add α] [Sub α] [Mul α] [Div α] [LT α] [DecidableLT α] [OfNat α 2] [NatCast α]"
 
 
@@ -374,10 +374,10 @@ class Ar:
 
     def E(self, n):
         if isinstance(n, ast.Name):
-            if n.id == "pi": return "pi", "a"
+            if n.id == "pi": return "F.pi", "a"
             if n.id not in self.env: raise TranslateError(f"{self.f}: unknown name `{n.id}`")
             return ("v_" + n.id), self.env[n.id]
-        if isinstance(n, ast.Attribute) and ast.unparse(n) in ("math.pi", "np.pi", "numpy.pi", "cmath.pi"): return "pi", "a"
+        if isinstance(n, ast.Attribute) and ast.unparse(n) in ("math.pi", "np.pi", "numpy.pi", "cmath.pi"): return "F.pi", "a"
         if isinstance(n, ast.Constant) and isinstance(n.value, int) and not isinstance(n.value, bool):
             if n.value == 2: return "2", "a"
             return f"(({n.value} : Nat) : α)", "a"
@@ -385,7 +385,7 @@ class Ar:
             a, aty = self.E(n.left); b, bty = self.E(n.right)
             if aty == "n": a = f"({a} : α)"
             if bty == "n": b = f"({b} : α)"
-            if isinstance(n.op, ast.Mod): return f"(fmod {a} {b})", "a"
+            if isinstance(n.op, ast.Mod): return f"(F.fmod {a} {b})", "a"
             return f"({a} {({ast.Add: '+', ast.Sub: '-', ast.Mult: '*', ast.Div: '/'})[type(n.op)]} {b})", "a"
         raise TranslateError(f"{self.f}: expression `{ast.unparse(n)[:60]}` is not understood")
 
@@ -428,13 +428,13 @@ def translate_maths():
     def s_principal():
         names, body = fn_body("principal_angle", 1)
         txt = Ar("principal_angle", {names[0]: "a"}).block(body)
-        chunks.append(f"/-- `principal_angle` -/\ndef principalAngle {ALPHA} (pi : α) (fmod : α → α → α) (v_{names[0]} : α) : α :=\n{ind(txt)}\n")
+        chunks.append(f"/-- `principal_angle` -/\ndef principalAngle {ALPHA} (F : FloatOps α) (v_{names[0]} : α) : α :=\n{ind(txt)}\n")
         return "body compiled"
 
     def s_diff():
         names, body = fn_body("angle_diff", 2)
         txt = Ar("angle_diff", {names[0]: "a", names[1]: "a"}).block(body)
-        chunks.append(f"/-- `angle_diff` -/\ndef angleDiff {ALPHA} (pi : α) (fmod : α → α → α) (v_{names[0]} v_{names[1]} : α) : α :=\n{ind(txt)}\n")
+        chunks.append(f"/-- `angle_diff` -/\ndef angleDiff {ALPHA} (F : FloatOps α) (v_{names[0]} v_{names[1]} : α) : α :=\n{ind(txt)}\n")
         return "body compiled"
 
     def s_roots():
@@ -457,7 +457,7 @@ def translate_maths():
         k = r.value.generators[0].target.id
         t, _ = Ar("roots", {arg: "a", k: "n", names[1]: "n"}).E(r.value.elt.args[1])
         chunks.append(f"/-- `roots` (normalised): the ARGUMENTS handed to `cmath.rect`, `t` = argument of the input (`cmath.polar`) -/\n"
-                      f"def rootArgs {ALPHA} (pi : α) (v_{arg} : α) (v_{names[1]} : Nat) : List α :=\n"
+                      f"def rootArgs {ALPHA} (F : FloatOps α) (v_{arg} : α) (v_{names[1]} : Nat) : List α :=\n"
                       f"  (List.range v_{names[1]}).map (fun (v_{k} : Nat) => {t})\n")
         return "argument expression of the comprehension compiled"
 
@@ -1010,3 +1010,190 @@ def translate_vec():
     add("vector.py: Vec.__new__ conversions, Vec.x/.y/.z getters and setters", s_vec_new)
     T.write_generated("C12Vec", "\n".join(chunks) + "\nend Mouette.Generated.C12Vec\n", VEC_HEADER)
     return sites
+
+
+# ------------------------------------------------------------------------------------------------------------------
+# round 7: mouette/geometry/rotations.py, whole bodies of rotate_2d and rotate_around_axis -> lean/Mouette/Generated/C12Rot.lean
+# ------------------------------------------------------------------------------------------------------------------
+ROT_FILE = "mouette/geometry/rotations.py"
+ROT_HEADER = ("import Mouette.Model.Prim\nimport Mouette.Model.FloatOps\nset_option linter.unusedVariables false\nnamespace Mouette.Generated.C12Rot\n"
+              "open Mouette Mouette.Prim\n\n"
+              "/-! Whole bodies of `rotate_2d` and `rotate_around_axis` over ℚ.  `math.cos` / `math.sin` are the fields of `F : FloatOps ℚ` (nothing assumed\n"
+              "here; the theorems take `F.TrigLaws`), `Vec.normalized` is the parameter `N : V3 → V3` (the theorems assume `|N a|² = 1`), a local\n"
+              "`Vec(0., 0.[, 0.])` whose components are then assigned is a record updated field by field, `axis.norm() < t` is compared on squares. -/\n\n")
+
+
+class Rt(Pr):
+    def E(self, n):
+        d = _call(n) or ""
+        if d in ("math.cos", "math.sin", "np.cos", "np.sin", "cos", "sin") and len(n.args) == 1:
+            x, xt = self.E(n.args[0])
+            if xt == "s": return f"(F.{d.split('.')[-1]} {x})", "s"
+        if d == "Vec.normalized" and len(n.args) == 1:
+            x, xt = self.E(n.args[0])
+            if xt == "v3": return f"(N {x})", "v3"
+        if d == "Vec" and len(n.args) in (2, 3) and all(isinstance(a, ast.Constant) and a.value == 0 for a in n.args):
+            return ("(⟨0, 0⟩ : V2)", "v2") if len(n.args) == 2 else ("(⟨0, 0, 0⟩ : V3)", "v3")
+        if isinstance(n, ast.Subscript) and isinstance(n.slice, ast.Constant) and n.slice.value in (0, 1, 2):
+            x, xt = self.E(n.value)
+            if xt in ("v2", "v3") and not (xt == "v2" and n.slice.value == 2): return f"{x}.{'xyz'[n.slice.value]}", "s"
+        return super().E(n)
+
+    def test(self, t):
+        if isinstance(t, ast.BoolOp):
+            return "(" + (" || " if isinstance(t.op, ast.Or) else " && ").join(self.test(x) for x in t.values) + ")"
+        if isinstance(t, ast.Compare) and len(t.ops) == 1 and isinstance(t.ops[0], (ast.Lt, ast.LtE)):
+            a, aty = self.E(t.left); b, bty = self.E(t.comparators[0])
+            if "q" in (aty, bty): a, b = self.as_q(t.left, a, aty), self.as_q(t.comparators[0], b, bty)
+            elif not (aty == "s" and bty == "s"): raise TranslateError(f"{self.f}: comparison of {aty} with {bty}")
+            return f"decide ({a} {'<' if isinstance(t.ops[0], ast.Lt) else '≤'} {b})"
+        raise TranslateError(f"{self.f}: test `{ast.unparse(t)[:60]}` is not understood")
+
+    def body(self, stmts):
+        if not stmts: raise TranslateError(f"{self.f}: no return")
+        st, rest = stmts[0], stmts[1:]
+        if isinstance(st, ast.Return):
+            t, ty = self.E(st.value)
+            return t
+        if isinstance(st, ast.If) and not st.orelse and len(st.body) == 1 and isinstance(st.body[0], ast.Return):
+            t, _ = self.E(st.body[0].value)
+            return f"if {self.test(st.test)} then {t} else\n" + self.body(rest)
+        if isinstance(st, ast.Assign) and len(st.targets) == 1:
+            tg, val = st.targets[0], st.value
+            if _name(tg):
+                t, ty = self.E(val)
+                self.env[tg.id] = ty
+                return f"let v_{tg.id} := {t}\n" + self.body(rest)
+            if isinstance(tg, ast.Tuple) and all(_name(e) for e in tg.elts):
+                if isinstance(val, ast.Tuple) and len(val.elts) == len(tg.elts):
+                    parts = [self.E(e) for e in val.elts]          # right-hand sides first
+                    lines = [f"let t{i} := {t}" for i, (t, _) in enumerate(parts)]
+                    for i, (e, (_, ty)) in enumerate(zip(tg.elts, parts)):
+                        self.env[e.id] = ty; lines.append(f"let v_{e.id} := t{i}")
+                    return "\n".join(lines) + "\n" + self.body(rest)
+                t, ty = self.E(val)
+                if ty == "v3" and len(tg.elts) == 3:                # `u, v, w = axis`
+                    lines = []
+                    for e, c in zip(tg.elts, "xyz"):
+                        self.env[e.id] = "s"; lines.append(f"let v_{e.id} := {t}.{c}")
+                    return "\n".join(lines) + "\n" + self.body(rest)
+            if isinstance(tg, ast.Attribute) and _name(tg.value) and self.env.get(tg.value.id) in ("v2", "v3") and tg.attr in ("x", "y", "z"):
+                t, ty = self.E(val)
+                if ty != "s": raise TranslateError(f"{self.f}: component store of a value of type {ty}")
+                o = "v_" + tg.value.id
+                return f"let {o} := {{ {o} with {tg.attr} := {t} }}\n" + self.body(rest)
+        raise TranslateError(f"{self.f}: statement `{ast.unparse(st)[:70]}` is not understood")
+
+
+def translate_rot():
+    sites, chunks = [], []
+    try:
+        tree, _ = T.load(ROT_FILE)
+    except Exception as e:  # noqa
+        T.write_generated("C12Rot", "namespace Mouette.Generated.C12Rot\nend Mouette.Generated.C12Rot\n")
+        return [{"site": "rotations.py", "ok": False, "detail": f"{type(e).__name__}: {e}"}]
+    for lean, py, ptys, ret, extra in (("rotate2d", "rotate_2d", ["v2", "s"], "V2", ""),
+                                      ("rotateAroundAxis", "rotate_around_axis", ["v3", "v3", "s"], "V3", " (N : V3 → V3)")):
+        def run(lean=lean, py=py, ptys=ptys, ret=ret, extra=extra):
+            fn = T.find_def(tree, py)
+            names = [a.arg for a in fn.args.args]
+            if len(names) != len(ptys): raise TranslateError(f"{py}: parameters {names}")
+            fn = Norm().visit(copy.deepcopy(fn)); ast.fix_missing_locations(fn)
+            txt = Rt(py, dict(zip(names, ptys))).body(_strip(fn.body))
+            ps = " ".join(f"(v_{n} : {LT[t]})" for n, t in zip(names, ptys))
+            chunks.append(f"/-- `{py}` -/\ndef {lean} (F : FloatOps Rat){extra} {ps} : {ret} :=\n{ind(txt)}\n")
+            return "body compiled"
+        sites.append(T.site(f"rotations.py: {py} (whole body)", run))
+    T.write_generated("C12Rot", "\n".join(chunks) + "\nend Mouette.Generated.C12Rot\n", ROT_HEADER)
+    return sites
+
+
+# ------------------------------------------------------------------------------------------------------------------
+# round 7: geometry.circumcenter, whole body with the frame returned by face_basis as PARAMETERS -> Generated/C12Circ.lean
+# ------------------------------------------------------------------------------------------------------------------
+CIRC_HEADER = ("import Mouette.Generated.C12Prim\nset_option linter.unusedVariables false\nnamespace Mouette.Generated.C12Circ\nopen Mouette.Prim\n\n"
+               "/-! The whole body of `circumcenter` over ℚ.  The three vectors returned by `face_basis(v1, v2, v3)` are the PARAMETERS `X Y Z` (their\n"
+               "normalisation needs a square root; `Props/C12V.lean: faceBasis_orthogonal` proves what they are before it, and the theorems of\n"
+               "`Props/C12Rt.lean` assume exactly that `(X, Y, Z)` is an orthonormal frame with `Z` normal to the triangle).  `intersect_2lines2D` is the\n"
+               "extracted `C12Prim.intersect2`; `S = None` makes `S.x` raise: `none`. -/\n\n")
+
+
+class Cc(Rt):
+    def E(self, n):
+        if isinstance(n, ast.BinOp) and isinstance(n.op, ast.Div):
+            a, aty = self.E(n.left); b, bty = self.E(n.right)
+            if aty in ("v2", "v3") and bty == "s": return f"({self.vops(aty)}.smul (1 / {b}) {a})", aty
+        if isinstance(n, ast.Call) and _call(n) == "Vec" and len(n.args) == 3:
+            ps = [self.E(a) for a in n.args]
+            if all(t == "s" for _, t in ps): return "(⟨" + ", ".join(x for x, _ in ps) + "⟩ : V3)", "v3"
+        return super().E(n)
+
+
+def translate_circ():
+    def run():
+        tree, _ = T.load(GEOM_FILE)
+        fn = T.find_def(tree, "circumcenter")
+        names = [a.arg for a in fn.args.args]
+        if len(names) != 3: raise TranslateError(f"circumcenter: parameters {names}")
+        fn = Norm().visit(copy.deepcopy(fn)); ast.fix_missing_locations(fn)
+        body = _strip(fn.body)
+        c = Cc("circumcenter", {x: "v3" for x in names})
+        st0 = body[0]
+        if not (isinstance(st0, ast.Assign) and isinstance(st0.targets[0], ast.Tuple) and len(st0.targets[0].elts) == 3 and _call(st0.value, "face_basis")
+                and [ast.unparse(a) for a in st0.value.args] == names and not st0.value.keywords):
+            raise TranslateError("circumcenter: expected `X, Y, Z = face_basis(v1, v2, v3)` first")
+        frame = [e.id for e in st0.targets[0].elts]
+        for x in frame: c.env[x] = "v3"
+        lines = []
+        rest = body[1:]
+        while rest:
+            st = rest.pop(0)
+            if isinstance(st, ast.Return):
+                t, ty = c.E(st.value)
+                if ty != "v3": raise TranslateError(f"circumcenter: returns a value of type {ty}")
+                lines.append(f"some {t}")
+                break
+            if not (isinstance(st, ast.Assign) and len(st.targets) == 1): raise TranslateError(f"circumcenter: statement `{ast.unparse(st)[:60]}`")
+            tg, val = st.targets[0], st.value
+            if isinstance(tg, ast.Tuple) and isinstance(val, ast.GeneratorExp) and len(val.generators) == 1 and isinstance(val.generators[0].iter, ast.Tuple) \
+                    and _name(val.generators[0].target) and len(tg.elts) == len(val.generators[0].iter.elts) and not val.generators[0].ifs:
+                # `a, b, c = (f(v) for v in (x, y, z))`: every right-hand side first, then the rebinding
+                var = val.generators[0].target.id
+                outs = []
+                for i, src in enumerate(val.generators[0].iter.elts):
+                    s_, sty = c.E(src)
+                    saved = dict(c.env); c.env[var] = sty
+                    body_txt, bty = c.E(val.elt)
+                    c.env = saved
+                    lines.append(f"let t{i} := (let v_{var} := {s_}; {body_txt})")
+                    outs.append(bty)
+                for i, (e, bty) in enumerate(zip(tg.elts, outs)):
+                    c.env[e.id] = bty; lines.append(f"let v_{e.id} := t{i}")
+                continue
+            if _name(tg) and _call(val, "intersect_2lines2D") and len(val.args) == 4 and not val.keywords:
+                args = [c.E(a) for a in val.args]
+                if [t for _, t in args] != ["v2"] * 4: raise TranslateError("circumcenter: arguments of intersect_2lines2D")
+                lines += [f"match C12Prim.intersect2 {' '.join(x for x, _ in args)} with", "| none => none", f"| some v_{tg.id} =>"]
+                c.env[tg.id] = "v2"
+                continue
+            if _name(tg):
+                t, ty = c.E(val)
+                c.env[tg.id] = ty
+                lines.append(f"let v_{tg.id} := {t}")
+                continue
+            raise TranslateError(f"circumcenter: statement `{ast.unparse(st)[:60]}`")
+        else:
+            raise TranslateError("circumcenter: no return")
+        ps = " ".join(f"(v_{x} : V3)" for x in frame + names)
+        txt = (f"/-- `circumcenter`, the frame `{', '.join(frame)} = face_basis(..)` given -/\ndef circumcenterIn {ps} : Option V3 :=\n" + ind("\n".join(lines)) + "\n")
+        T.write_generated("C12Circ", txt + "\nend Mouette.Generated.C12Circ\n", CIRC_HEADER)
+        return "body compiled"
+
+    def guarded():
+        try:
+            return run()
+        except Exception as e:
+            msg = str(e).replace("-/", "- /").replace("/-", "/ -")
+            T.write_generated("C12Circ", f"/- TRANSLATION FAILED on the current tree: {type(e).__name__}: {msg} -/\ndef translationFailed : Unit := ()\nend Mouette.Generated.C12Circ\n", CIRC_HEADER)
+            raise
+    return [T.site("geometry.py: circumcenter (whole body, frame of face_basis as parameters)", guarded)]
